@@ -78,12 +78,38 @@ pub fn run(r: &Report) {
     r.set_rule(
         "complete product of the FullParams alphabet: signblockscript / fedpeg program / fedpegscript lengths {0,1,(75,)76,253} x \
          witness limit {0,1,MAX} x 5 extension spaces (0..3 entries of length 0/1/2/33); their compact forms; Null; every dynafed \
-         header over a 5-element params menu squared x 3 witness shapes, and the legacy headers (root must be None). \
+         header over a 5-element params menu squared x 3 witness shapes, and the legacy headers (root must be None); the parameter product again on one thread in 6 orders (generation, reversed, sorted by each field group) so that sets differing in one field group are hashed back to back. \
          non-trivial = distinct parameter encodings",
     );
     let fulls = gen::full_params(r.tier.thorough());
     r.set_extra("full_params", json!(fulls.len()));
     fulls.par_iter().for_each(|f| check_full(r, f));
+    // histories on ONE thread (the roots are pure functions of the parameters): the whole product again in generation
+    // order, reversed, and in four orders sorted so that parameter sets differing in exactly one group of fields (extension
+    // space / fedpeg data / signblock data / witness limit) are evaluated back to back
+    {
+        let mut n_hist = 0u64;
+        let mut orders: Vec<Vec<&RFull>> = vec![fulls.iter().collect(), fulls.iter().rev().collect()];
+        let mut by_fedpeg: Vec<&RFull> = fulls.iter().collect();
+        by_fedpeg.sort_by(|a, b| (&a.fedpeg_program, &a.fedpegscript, &a.signblockscript, a.limit, &a.ext).cmp(&(&b.fedpeg_program, &b.fedpegscript, &b.signblockscript, b.limit, &b.ext)));
+        orders.push(by_fedpeg);
+        let mut by_ext: Vec<&RFull> = fulls.iter().collect();
+        by_ext.sort_by(|a, b| (&a.ext, &a.signblockscript, a.limit, &a.fedpeg_program, &a.fedpegscript).cmp(&(&b.ext, &b.signblockscript, b.limit, &b.fedpeg_program, &b.fedpegscript)));
+        orders.push(by_ext);
+        let mut by_sbs: Vec<&RFull> = fulls.iter().collect();
+        by_sbs.sort_by(|a, b| (&a.signblockscript, &a.fedpeg_program, &a.fedpegscript, &a.ext, a.limit).cmp(&(&b.signblockscript, &b.fedpeg_program, &b.fedpegscript, &b.ext, b.limit)));
+        orders.push(by_sbs);
+        let mut by_limit: Vec<&RFull> = fulls.iter().collect();
+        by_limit.sort_by(|a, b| (a.limit, &a.ext, &a.fedpegscript, &a.fedpeg_program, &a.signblockscript).cmp(&(b.limit, &b.ext, &b.fedpegscript, &b.fedpeg_program, &b.signblockscript)));
+        orders.push(by_limit);
+        for o in &orders {
+            for f in o.iter().take(r.tier.pick(1300, 100_000)) {
+                check_full(r, f);
+                n_hist += 1;
+            }
+        }
+        r.set_extra("sequential_history_cases", json!(n_hist));
+    }
     // Null
     r.eval(1);
     r.state(1);
